@@ -197,6 +197,8 @@ impl VersionRange {
             parse_version(rest.trim()).map(VersionRange::Lte)
         } else if let Some(rest) = spec.strip_prefix('<') {
             parse_version(rest.trim()).map(VersionRange::Lt)
+        } else if let Some(rest) = spec.strip_prefix('=') {
+            parse_version(rest.trim()).map(VersionRange::Exact)
         } else if let Some(rest) = spec.strip_prefix('^') {
             parse_version(rest.trim()).map(VersionRange::Caret)
         } else if let Some(rest) = spec.strip_prefix('~') {
